@@ -97,6 +97,17 @@ def run(tier, seed):
             p["id"] = "uid%d" % u
             p["srv"]["uid"] = u
             plans.append(p)
+        # long sessions: many deactivate-all / demand-active cycles, every capability list variant (incl. every set type the
+        # client knows, 18 sets per demand-active), share id constant or changing - each demand-active is owed its answer
+        k = 0
+        for capv in range(8):
+            for same in (False, True):
+                p = json.loads(json.dumps(plans[(7 * k) % nconn]))
+                p["id"] = "react%d" % k
+                p["srv"]["activations"] = 9 if capv in (0, 7) else 4
+                p["srv"]["capv"] = capv
+                p["srv"]["same_share"] = same
+                plans.append(p); k += 1
         st = json.loads(json.dumps(base))
         st["id"] = "selftest"
         st["cfg"].update({"nla": False, "admin": False, "name": [97], "check": False})
